@@ -160,7 +160,7 @@ def check(run, opts):
             i = j
             continue
         i += 1
-    if run.error is None and run.E.elected is not None:
+    if run.complete and run.E.elected is not None:
         elected = {c.cid for c in run.E.elected}
         for cid, at in held.items():
             st['held'] += 1
